@@ -242,6 +242,7 @@ fn gen_op(
         /* 20 RenderBurst */ if have_svg.is_empty() || !any_qr { 0 } else { 1 },
         /* 21 TweakQr     */ if have_q.is_empty() { 0 } else { 2 },
         /* 22 SetBurst    */ if have_b.is_empty() && have_svg.is_empty() && have_img.is_empty() { 0 } else { 2 },
+        /* 23 BlankQr     */ 2,
     ];
     let pick_qr = |rng: &mut Rng| -> QrRef {
         if n_shared_q > 0 && (have_q.is_empty() || rng.chance(2, 5)) {
@@ -449,6 +450,12 @@ fn gen_op(
             if !tg.svg_has_panicky[slot as usize] {
                 ops.push(faulted(rng, sw, Op::RenderBurst { slot, qr, n }, None));
             }
+        }
+        23 => {
+            let to = rng.usize_below(N_QR_SLOTS) as u8;
+            tg.qrs[to as usize] = true;
+            let version = *rng.pick(&[1u8, 1, 2, 3, 5, 7, 10, 27, 40]);
+            ops.push(plain(Op::BlankQr { to, version }));
         }
         22 => {
             // "regardless of how many times the setters were called": counters that wrap
